@@ -47,16 +47,22 @@ fn main() {
 		}
 		"check-inner" => {
 			let tier = if args.get(3).map(String::as_str) == Some("thorough") { Tier::Thorough } else { Tier::Quick };
-			std::process::exit(checks::check_inner(&args[2], tier, seed, workers));
+			let code = checks::check_inner(&args[2], tier, seed, workers);
+			jrsim::proc::cleanup_process_scratch();
+			std::process::exit(code);
 		}
 		"range" => {
 			let tier = if args.get(3).map(String::as_str) == Some("thorough") { Tier::Thorough } else { Tier::Quick };
 			let lo: u64 = args.get(4).and_then(|s| s.parse().ok()).unwrap_or(0);
 			let hi: u64 = args.get(5).and_then(|s| s.parse().ok()).unwrap_or(0);
-			std::process::exit(checks::range(&args[2], tier, seed, workers, lo, hi));
+			let code = checks::range(&args[2], tier, seed, workers, lo, hi);
+			jrsim::proc::cleanup_process_scratch();
+			std::process::exit(code);
 		}
 		"run-plan" => {
-			std::process::exit(checks::run_plan(&args[2], &args[3]));
+			let code = checks::run_plan(&args[2], &args[3]);
+			jrsim::proc::cleanup_process_scratch();
+			std::process::exit(code);
 		}
 		"replay" => {
 			if args.len() < 3 {
@@ -70,7 +76,9 @@ fn main() {
 				eprintln!("cannot parse {}: {e}", args[2]);
 				std::process::exit(2);
 			});
-			std::process::exit(checks::replay(&file));
+			let code = checks::replay(&file);
+			jrsim::proc::cleanup_process_scratch();
+			std::process::exit(code);
 		}
 		"digests" => {
 			if args.len() < 5 {
@@ -79,6 +87,13 @@ fn main() {
 			let runs: u64 = args[3].parse().unwrap_or(1000);
 			let w: usize = args[4].parse().unwrap_or(4);
 			std::process::exit(checks::digests(&args[2], seed, runs, w));
+		}
+		"log" => {
+			let run: u64 = args.get(3).and_then(|s| s.parse().ok()).unwrap_or(0);
+			let tier = if args.get(4).map(String::as_str) == Some("thorough") { Tier::Thorough } else { Tier::Quick };
+			let code = checks::show_log(&args[2], seed, run, tier);
+			jrsim::proc::cleanup_process_scratch();
+			std::process::exit(code);
 		}
 		"families" => {
 			// timing/debug aid: run every family a few times on a fresh host
